@@ -99,7 +99,14 @@ func (c *ClusterNode) RPCSendShard(args *RPCSendShardRequest, reply *RPCSendShar
 	// Does this generate a lot of syscalls? If so, we can switch to buffered
 	// writers but we need to keep track of the file descriptor across RPC
 	// calls. Let's see if this is a problem first, we can optimize later.
-	f, err := os.OpenFile(shardPath, os.O_APPEND|os.O_CREATE|os.O_WRONLY, 0644)
+	flags := os.O_APPEND | os.O_CREATE | os.O_WRONLY
+	if args.ChunkIndex == 0 {
+		// A new transfer starts from scratch. Without truncating, the chunks
+		// left behind by an interrupted transfer would stay in front of the
+		// new copy and every retry would end in a checksum mismatch.
+		flags |= os.O_TRUNC
+	}
+	f, err := os.OpenFile(shardPath, flags, 0644)
 	if err != nil {
 		return fmt.Errorf("could not open shard file: %w", err)
 	}
